@@ -57,10 +57,13 @@ def eq(eng, a, b):
     return eng.compare(ast.Eq(), a, b)
 
 
-def session(pattern, folders, opts, seq, by_path):
-    r = ObResult(bounds="layout %s opened %s; call sequence %s; sizes/CRCs/pack sizes symbolic; one decoder call per member"
-                        % (RC.shape_name(pattern, folders, opts), "by path" if by_path else "from a stream", seq))
-    eng = RC.mk_engine(unroll=1)
+def session(pattern, folders, opts, seq, by_path, terminates_only=False):
+    """terminates_only: any call sequence (also decoding twice without reset); the only requirement is that every call
+    returns or raises (C05) – a decoder that is exhausted and asked again and again is reported as a hang"""
+    r = ObResult(bounds="layout %s opened %s; call sequence %s; sizes/CRCs/pack sizes symbolic; one decoder call per member%s"
+                        % (RC.shape_name(pattern, folders, opts), "by path" if by_path else "from a stream", seq,
+                           "; requirement: every call terminates" if terminates_only else ""))
+    eng = RC.mk_engine(unroll=1 if not terminates_only else 4)
     eng.overrides[("py7zr.helpers", "filetime_to_dt")] = lambda e, ft: ("dt", ft)
     sym = RC.symbols(eng, pattern)
     n = len(pattern)
@@ -70,7 +73,7 @@ def session(pattern, folders, opts, seq, by_path):
         entries, layout = RC.build(e, pattern, folders, opts, sym)
         try:
             z, fp, w = X.setup_read(e, entries, layout, name=("arch.7z" if by_path else None), progress="exhausted-aware",
-                                    stall_limit=1, consume="all-at-once")
+                                    stall_limit=(3 if terminates_only else 1), consume="all-at-once")
         except ModelRaise as ex:
             return dict(exc="open:" + ex.name)
         z.attrs["_block_size"] = 2 ** 41  # packed-stream CRC blocks: one block per stream (block loop: C04 obligation)
@@ -101,13 +104,15 @@ def session(pattern, folders, opts, seq, by_path):
                 st["exc"] = "HANG: " + str(ex)
             st["created"], st["decoded"], st["read_starts"] = w.created, w.decoded, w.read_starts
             steps.append(st)
-            if "exc" in st:
+            if "exc" in st and (not terminates_only or st["exc"].startswith("HANG")):
                 break
         return dict(steps=steps, entries=entries, world=w, fp=fp, layout=layout)
 
     def post(o):
         if "exc" in o:
             return False
+        if terminates_only:
+            return [not any(s_.get("exc", "").startswith("HANG") for s_ in o["steps"])]
         c = []
         w, entries = o["world"], o["entries"]
         names = [en["name"] for en in entries]
@@ -147,7 +152,7 @@ def session(pattern, folders, opts, seq, by_path):
     decide(eng, harness, post, RC.inputs_of(sym, pattern, folders), r,
            max_cex=1, describe=lambda o: o.get("exc") or " ".join("%s%s" % (s["op"], ("!" + s["exc"]) if "exc" in s else "") for s in o["steps"]))
     _cex(r, "session", lambda w_: dict(module="vf.props.c12", func="replay", kwargs=dict(
-        pattern=pattern, folders=folders, opts=opts, seq=seq, by_path=by_path,
+        pattern=pattern, folders=folders, opts=opts, seq=seq, by_path=by_path, terminates_only=terminates_only,
         witness={k: int(v) for k, v in w_.items() if isinstance(v, int)})), signature=lambda w_: _signature(seq, folders, by_path, pattern))
     return r
 
@@ -167,7 +172,7 @@ def _signature(seq, folders, by_path, pattern):
             "no_streams": not folders, "has_test": "T" in seq}
 
 
-def replay(pattern, folders, opts, seq, by_path, witness):
+def replay(pattern, folders, opts, seq, by_path, witness, terminates_only=False):
     """the same call sequence on the concrete counterpart with the real library, each call under a watchdog"""
     import os
     import signal
@@ -226,16 +231,21 @@ def replay(pattern, folders, opts, seq, by_path, witness):
                         want = {k: v for k, v in expect.items() if k in last}
                     got = {k: v.read() for k, v in fac.products.items()}
                     if got != want:
-                        return True, "step %d %s: delivered %s" % (i, op, {k: len(v) for k, v in got.items()})
+                        if not terminates_only:
+                            return True, "step %d %s: delivered %s" % (i, op, {k: len(v) for k, v in got.items()})
                 elif op == "R":
                     z.reset()
             except Hang:
                 return True, "step %d (%s of %s): no return within 6 s" % (i, op, seq)
             except Exception as ex:  # noqa
+                if terminates_only:
+                    continue  # raising is fine here: the call ended
                 return True, "step %d (%s of %s) raised %r" % (i, op, seq, ex)
             finally:
                 signal.alarm(0)
         # the integrity verdicts must also be right on a damaged copy, at every point of the same session
+        if terminates_only:
+            return False, "every call of %s returned or raised" % seq
         if datas and ("Z" in seq or "T" in seq):
             bad = bytearray(img)
             pos = 32 + (8 if opts.get("packpos") else 0) + sum(len(x) for x in datas) - 1
